@@ -2767,7 +2767,14 @@ class FuncOrd(ValueFunc):
     def execute(self, args, environment, pos):
         if args.isNull("ch"):
             return NULL
-        return ValueInt(ord(args.getString("ch").value[0]))
+        ch = args.getString("ch").value
+        if ch == "":
+            raise CklRuntimeError(
+                ValueString("ERROR"),
+                "ord requires a non-empty string",
+                pos
+            )
+        return ValueInt(ord(ch[0]))
 
 
 class FuncParse(ValueFunc):
